@@ -92,6 +92,17 @@ type ByteRange struct {
 	End   *int64
 }
 
+// IsSatisfiable reports whether the range selects at least one byte of an
+// object of objectSize bytes (RFC 7233 section 2.1): its first byte lies inside
+// the object, or it is a suffix range of non-zero length on a non-empty object.
+// A range without Start and End stands for the entire object and always is.
+func (br ByteRange) IsSatisfiable(objectSize int64) bool {
+	if br.Start == nil {
+		return br.End == nil || (*br.End > 0 && objectSize > 0)
+	}
+	return *br.Start < objectSize && (br.End == nil || *br.Start < *br.End)
+}
+
 type ListBucketResult struct {
 	Objects        []Object
 	CommonPrefixes []string
@@ -596,7 +607,9 @@ type ObjectManager interface {
 	// GetObject retrieves an object with optional byte ranges.
 	// If ranges is empty or nil, returns the entire object as a single reader.
 	// All operations are performed in a single transaction to ensure consistency.
-	// Returns the object metadata, a list of readers (one per range), and an error.
+	// Ranges that select no byte of the object (see ByteRange.IsSatisfiable) are skipped;
+	// ErrInvalidRange is returned only if a range is malformed or none is satisfiable.
+	// Returns the object metadata, a list of readers (one per satisfiable range, in request order), and an error.
 	GetObject(ctx context.Context, bucketName BucketName, key ObjectKey, ranges []ByteRange, opts *GetObjectOptions) (*Object, []io.ReadCloser, error)
 	PutObject(ctx context.Context, bucketName BucketName, key ObjectKey, contentType *string, data io.Reader, checksumInput *ChecksumInput, opts *PutObjectOptions) (*PutObjectResult, error)
 	// CopyObject performs a server-side copy of srcBucket/srcKey to dstBucket/dstKey.
